@@ -24,6 +24,8 @@ type oCase struct {
 	Cli  []string          `json:"cli"`
 	// "-config <file>" after the other arguments instead of before them
 	CfgLast bool `json:"cfglast"`
+	// other spellings the flag package accepts for naming the file: "eq" = -config=<file>, "dd" = --config <file>
+	CfgForm string `json:"cfgform"`
 }
 
 type oField struct {
@@ -72,7 +74,13 @@ func oRun(c oCase, dir string) (res oRes) {
 		}
 	}
 	// the configuration file is named the documented way; an absent file is simply not there
-	if c.CfgLast { // the order of the arguments is the user's choice
+	if c.CfgForm == "eq" {
+		args = append(args, "-config="+cfg)
+		args = append(args, c.Cli...)
+	} else if c.CfgForm == "dd" {
+		args = append(args, "--config", cfg)
+		args = append(args, c.Cli...)
+	} else if c.CfgLast { // the order of the arguments is the user's choice
 		args = append(args, c.Cli...)
 		args = append(args, "-config", cfg)
 	} else {
